@@ -120,9 +120,22 @@ def ndjson_tag_collision_trigger(m: mut.Mut, proto: Proto) -> str:
     c = m.codec
     groups: dict = {}
 
+    def deep(t, depth=0):
+        """the type with every alias resolved at every level (MxLabel->int32 and string->int32 are one C++ type), as text"""
+        t = c.res(c.fq(t))
+        if depth > 8:
+            return repr(t)
+        if isinstance(t, M):
+            return "M(%s,%s)" % (deep(t.key, depth + 1), deep(t.value, depth + 1))
+        if isinstance(t, V):
+            return "V(%s,%r)" % (deep(t.item, depth + 1), getattr(t, "length", None))
+        if isinstance(t, U):
+            return "U(%r,%s)" % (t.nullable, ",".join(deep(x, depth + 1) for _, x in t.cases))
+        return repr(t)
+
     def key(u):
         try:
-            return (u.nullable, tuple(repr(c.res(c.fq(ct))) for _, ct in u.cases))
+            return (u.nullable, tuple(deep(ct) for _, ct in u.cases))
         except Exception:
             return (u.nullable, tuple(repr(ct) for _, ct in u.cases))
 
